@@ -3,18 +3,18 @@ module verifharness
 go 1.24.1
 
 require (
+	github.com/antchfx/htmlquery v1.3.4
 	github.com/google/go-cmp v0.7.0
 	github.com/magiconair/properties v1.8.10
 	github.com/rkosegi/yaml-toolkit v0.0.0
+	golang.org/x/net v0.39.0
 	gopkg.in/yaml.v3 v3.0.1
 )
 
 require (
-	github.com/antchfx/htmlquery v1.3.4 // indirect
 	github.com/antchfx/xpath v1.3.3 // indirect
 	github.com/go-task/slim-sprig/v3 v3.0.0 // indirect
 	github.com/golang/groupcache v0.0.0-20210331224755-41bb18bfe9da // indirect
-	golang.org/x/net v0.39.0 // indirect
 	golang.org/x/text v0.24.0 // indirect
 )
 
